@@ -43,6 +43,9 @@ func checkC19(c *Ctx) {
 	ruleScalarOnlyViaAnd(c, "C19.d")
 	c.rule("C19.e", "the in-memory backend's matcher is a conjunction: it reads every criteria field and only its final return can yield true", 17)
 	ruleConjunctiveMatcher(c, "C19.e")
+	ruleMatcherFreshVerdict(c, "C19.e")
+	c.rule("C19.f", "SEARCH parser: conjunct lists only grow; no element is modified in place", 1)
+	ruleNoInPlaceCriteriaEdit(c, "C19.f")
 }
 
 // ruleConjunctiveMatcher: (*imapmemserver.message).search must be a
